@@ -3,6 +3,7 @@ CONSTANTS SympyParenthesises = FALSE
  SafeNames = TRUE
  ClassifiesDiscrete = TRUE
  PrintsValueExpressions = TRUE
+          OneListPerVariable = TRUE
           Family = "cex"
 INIT Init
 NEXT Next
